@@ -347,7 +347,15 @@ def component_case(v, comp, N, lazy):
         schema = pa.MultiIndex([pa.Index(float if coerce else int, Check.ge(lo), name="k0", coerce=coerce), pa.Index(int, name="k1")])
     else:
         df = v.frame([("a", "int" if coerce else "float"), ("b", "int")], N, labels="l")
-        if comp.startswith("column"):
+        if comp == "column_parser":  # a stand-alone Column with a parser that changes values (nulls are filled)
+            from pandera import Parser
+
+            schema = pa.Column(float, Check.ge(lo), name="a", nullable=v.bool("nullable"), parsers=Parser(lambda s: s.fillna(0.5)))
+        elif comp == "column_regex_parser":
+            from pandera import Parser
+
+            schema = pa.Column(float, Check.ge(lo), name="^a$", regex=True, nullable=True, parsers=Parser(lambda s: s.fillna(0.5)))
+        elif comp.startswith("column"):
             schema = pa.Column(float, Check.ge(lo), name="a", nullable=v.bool("nullable"), coerce=coerce,
                                default=v.int("dflt") if comp == "column_default" else None)
         else:
@@ -390,7 +398,7 @@ def standard_cases(tier):
                                 cc = dict(c, lazy=lazy, distinct_labels=drop)
                                 tid = "P/" + "".join(arr) + "/" + "/".join(f"{k}={v}" for k, v in cc.items() if k != "distinct_labels")
                                 ts.append((tid, parse_case, (arr, N, cc)))
-    for comp in ("column", "column_coerce", "column_default", "index", "index_coerce", "multiindex", "multiindex_coerce"):
+    for comp in ("column", "column_coerce", "column_default", "column_parser", "column_regex_parser", "index", "index_coerce", "multiindex", "multiindex_coerce"):
         for lazy in (False, True):
             ts.append((f"K/{comp}/lazy={int(lazy)}/N={N}", component_case, (comp, N, lazy)))
     for shape in ("frame_index", "series_index", "frame_multiindex"):
@@ -1336,7 +1344,15 @@ T_OPS = {
     "update_columns(b,checks=None)": (lambda S: S.update_columns({"b": {"checks": None}}), ["a"], {}),
     "update_column(a,nullable=False)": (lambda S: S.update_column("a", nullable=False, unique=False, coerce=False, required=False), ["b"], {}),
     "update_columns(a,b)": (lambda S: S.update_columns({"a": {"nullable": True}, "b": {"unique": True}}), [], {}),
+    "set_index([b,a])": (lambda S: S.set_index(["b", "a"]), [], {}),
+    "set_index([a,b])": (lambda S: S.set_index(["a", "b"]), [], {}),
 }
+_SHARED = {}
+
+
+def _shared_col():
+    _SHARED["c"] = pa.Column(int, Check.isin([1, 2]))
+    return _SHARED["c"]
 # what the touched properties must be afterwards: (column, attribute) -> value
 T_EXPECT = {
     "update_column(b)": {("b", "nullable"): True}, "update_columns(b)": {("b", "nullable"): True},
@@ -1346,6 +1362,9 @@ T_EXPECT = {
     "update_columns(a,b)": {("a", "nullable"): True, ("b", "unique"): True},
 }
 T_LAWS = {
+    # the caller's Column object is used twice (two keys in one call / two successive calls): every schema keeps its own columns
+    "add_same_column_two_keys": lambda S: (lambda c: S.add_columns({"x": c, "y": c}).remove_columns(["x", "y"]))(_shared_col()),
+    "add_same_column_two_calls": lambda S: (lambda c: S.add_columns({"x": c}).add_columns({"y": c}).remove_columns(["x", "y"]))(_shared_col()),
     "rename_back": lambda S: S.rename_columns({"a": "z"}).rename_columns({"z": "a"}),
     "remove_after_add": lambda S: S.add_columns({"n": pa.Column(int)}).remove_columns(["n"]),
     "select_all": lambda S: S.select_columns(["a", "b"]),
@@ -1381,6 +1400,9 @@ def transform_case(v, group, name):
             asserts.append((f"transform/untouched_schema/{attr}", v.holds(_attr_eq(v, getattr(S, attr, None), getattr(S2, attr, None)))))
         asserts.append(("transform/new_object", v.holds(S2 is not S)))
         asserts.append(("transform/receiver_unchanged", v.holds(fingerprint(S) == fp0)))
+        if name.startswith("set_index(["):
+            want_levels = name[len("set_index(["):-2].split(",")
+            asserts.append(("transform/index_level_order", v.holds([i.name for i in S2.index.indexes] == want_levels)))
         for (col, attr), want in T_EXPECT.get(name, {}).items():
             got = getattr(S2.columns[col], attr)
             asserts.append((f"transform/requested/{col}.{attr}", v.holds(_attr_eq(v, got, want) if not isinstance(want, list) else (list(got or []) == want))))
@@ -1389,6 +1411,16 @@ def transform_case(v, group, name):
                                                           or name.startswith("select("))))
     elif group == "law":
         S2 = T_LAWS[name](S)
+        if name.startswith("add_same_column"):
+            c = _SHARED["c"]
+            if name.endswith("two_calls"):
+                S1 = S.add_columns({"x": c})
+                fp1 = fingerprint(S1)
+                S12 = S1.add_columns({"y": c})
+                asserts.append(("transform/receiver_unchanged_by_second_add", v.holds(fingerprint(S1) == fp1)))
+            else:
+                S12 = S.add_columns({"x": c, "y": c})
+            asserts.append(("transform/added_columns_named_by_key", v.holds(S12.columns["x"].name == "x" and S12.columns["y"].name == "y")))
         eq = (S2 == S)
         asserts.append(("transform/law_equal", v.holds(bool(eq))))
         diffs = []
@@ -1656,6 +1688,19 @@ def decorator_case(v, shape, N):
     lazy = v.choice("lazy", [False, True])
     head = v.choice("head", [None, 1])
     opts = dict(lazy=lazy, head=head)
+    if shape.endswith("-parse"):
+        # a schema whose validation returns a NEW object whatever `inplace` says (a missing column is added), with the inplace
+        # option chosen by the solver: the body must receive what validate returns
+        schema = pa.DataFrameSchema({"a": pa.Column(int, Check.ge(lo)), "b": pa.Column(int, default=1)}, add_missing_columns=True)
+        opts = dict(lazy=lazy, inplace=v.choice("inplace", [False, True]))
+        shape = shape[:-len("-parse")]
+    elif shape.endswith("-drop"):
+        schema = pa.DataFrameSchema({"a": pa.Column(int, Check.ge(lo))}, drop_invalid_rows=True)
+        opts = dict(lazy=True, inplace=v.choice("inplace", [False, True]))
+        shape = shape[:-len("-drop")]
+    elif shape.endswith("-nonearg"):
+        df = None  # not a dataframe at all: nothing validates it, so no body may run with it
+        shape = shape[:-len("-nonearg")]
     if shape.startswith("types") or shape in ("none-pos-opts", "io-opts"):
         # every validation option the decorators accept: tail and sample (contract stub: any n distinct rows, the same rows for the
         # same (n, random_state)) in addition
@@ -1664,7 +1709,7 @@ def decorator_case(v, shape, N):
             ns = v.choice("sample", [None, 1])
             if ns is not None:
                 opts.update(sample=ns, random_state=7)
-        if not v.sym:
+        if not v.sym and df is not None:
             df = H.with_sample_stub(df, v.vals, N)
     ran, got = [], []
     body_raises = v.choice("body_raises", [False, True]) if shape in ("none-pos", "io", "output") else False
@@ -1810,8 +1855,12 @@ def decorator_case(v, shape, N):
         out_kind = "dict"
     else:
         raise KeyError(shape)
-    snap = H.snapshot(df)
+    snap = H.snapshot(df) if df is not None else None
     direct = H.outcome(lambda: schema.validate(df, **opts))
+    if df is None:
+        o = H.outcome(call)
+        return dict(obs=None, asserts=[("decorator/gate", v.holds(not ran)), ("decorator/none_is_rejected", v.holds(o["kind"] != "accept"))],
+                    facts=dict(shape=shape, body_ran=bool(ran), _direct=direct["kind"], _got=o["kind"]))
 
     def run():
         try:
@@ -1853,7 +1902,9 @@ def decorator_case(v, shape, N):
 DECORATOR_SHAPES = ("none-pos", "none-kw", "name-pos", "name-kw", "int-pos", "method-none", "method-name", "method-name-default", "method-name-kw",
                     "method-int", "io", "output", "output-tuple", "output-dict",
                     "none-pos-opts", "io-opts", "name-pos-kw-default", "int-pos-kw-default", "none-pos-kw-default", "name-pos2-kwonly", "int-pos2-kwonly",
-                    "name-pos2-catchall", "name-pos-varargs", "io-kw-default", "types-pos", "types-kw", "types-bare")
+                    "name-pos2-catchall", "name-pos-varargs", "io-kw-default", "types-pos", "types-kw", "types-bare",
+                    "name-pos-parse", "name-kw-parse", "int-pos-parse", "none-pos-parse", "io-parse", "method-name-parse", "name-pos-drop", "io-drop", "int-pos-drop",
+                    "types-pos-nonearg", "types-kw-nonearg", "none-pos-nonearg", "name-pos-nonearg")
 
 
 # ------------------------------------------------------------------ histories of non-transforming operations (C05)
